@@ -84,6 +84,8 @@ def mask_file():
     a2.flat[0] = np.nan
     a2.flat[1] = np.inf
     f.vars['A2'] = RVar(('t', 'z', 'x'), a2, attrs=OrderedDict([('units', 'ppb')]))
+    # same SHAPE as A (t and z have equal lengths) but different dimensions: mask(where, dims=...) must skip it
+    f.vars['AT'] = RVar(('z', 't', 'x'), f.vars['A'].data.copy() + 1, attrs=OrderedDict([('units', 'ppb')]))
     return f
 
 
@@ -227,6 +229,9 @@ class Prop(core.Prop):
         m0.data = m0.data + 5
         m0.mask = np.roll(m0.mask, 2)
         f.vars['M0f'] = m0
+        # a global attribute with the name of a variable: the variable wins in expressions
+        f.attrs['B'] = 5
+        f.attrs['M'] = 2.5
         return f
 
     def run_eval(self, case):
